@@ -57,6 +57,8 @@ struct IovecExec {
     brefs: Vec<Option<Backref>>,
     bref_owner: Vec<usize>,
     shadows: Vec<Shadow>,
+    /// iovec handles that came out of `clone` / `take` (C20 speaks about those)
+    snapshots: Vec<usize>,
     bufs: Vec<Box<[u8]>>,
     base_ordinal: u64,
     base_chunks: usize,
@@ -85,6 +87,7 @@ impl IovecExec {
             brefs: vec![],
             bref_owner: vec![],
             shadows: vec![],
+            snapshots: vec![],
             bufs: vec![],
             base_ordinal: next,
             base_chunks: ByteArena::num_live_chunks(),
@@ -138,6 +141,12 @@ impl IovecExec {
                             "C05 v{} exposes a slice outside live memory (not in any live chunk or caller buffer)",
                             i
                         ));
+                        if self.snapshots.contains(&i) {
+                            so.violations.push(format!(
+                                "C20 v{} (a cloned / taken iovec) no longer holds valid contents: a slice points outside live memory",
+                                i
+                            ));
+                        }
                         addrs.push("DEAD".into());
                     }
                 }
@@ -570,6 +579,7 @@ impl Exec for IovecExec {
                         let newi = self.iovs.len();
                         self.iovs.push(Some(t));
                         self.shadows.push(sh);
+                        self.snapshots.push(newi);
                         // outstanding backrefs move with the contents
                         for o in self.bref_owner.iter_mut() {
                             if *o == i {
@@ -592,6 +602,7 @@ impl Exec for IovecExec {
                                 so.violations.push("C20 clone does not hold the bytes unconsumed at that moment".into());
                             }
                         }
+                        self.snapshots.push(self.iovs.len());
                         self.iovs.push(Some(c));
                         self.shadows.push(sh);
                     }
